@@ -11,3 +11,6 @@ var calledRe = regexp.MustCompile(`called\("([^"]+)"\)`)
 
 // calls("F"): number of calls of the contracted function F on this path.
 var callsRe = regexp.MustCompile(`calls\("([^"]+)"\)`)
+
+// lastret("F"): result of the most recent call of the contracted function F on this path.
+var lastretRe = regexp.MustCompile(`lastret\("([^"]+)"\)`)
